@@ -243,6 +243,9 @@ LeafWhys(c, lf) ==
     IF res.kind = "ok" /\ honourable /\ Len(as) = c.wl.len /\ ~CapShapeOK(as) THEN "P:C05:atoms-are-not-list-words-capitalised-as-the-scheme-prescribes" ELSE "ok",
     IF res.kind = "ok" /\ honourable /\ \E k \in DOMAIN as : as[k].v \notin info.kept \cup info.titled THEN "P:C10:atom-is-neither-a-kept-word-nor-its-title-cased-form" ELSE "ok",
     IF res.kind = "ok" /\ res.str # Concat(res.toks, 1) THEN "P:C05:String()-is-not-the-concatenation-of-token-values" ELSE "ok",
+    IF res.kind = "ok" /\ res.as = 1 /\ ~(/\ res.atoms = [k \in DOMAIN SelectSeq(res.toks, LAMBDA t : t.t = 1) |-> SelectSeq(res.toks, LAMBDA t : t.t = 1)[k].v]
+                                          /\ res.seps = [k \in DOMAIN SelectSeq(res.toks, LAMBDA t : t.t = 0) |-> SelectSeq(res.toks, LAMBDA t : t.t = 0)[k].v])
+      THEN "P:C05:Atoms()-or-Separators()-are-not-the-values-of-that-type-in-order" ELSE "ok",
     \* a separator made by NewSFFunction is the password of a character recipe: one that Generate must refuse (C13's band on the exact
     \* success fraction, under the budget in force) yields the empty separator, never a separator token
     IF res.kind = "ok" /\ honourable /\ info.sep.kind = "recipe" /\ info.sep.refused /\ ~HasEmptiedReq(info.sep.r) /\ SepsOf(res.toks) # <<>>
